@@ -1,8 +1,22 @@
-import Flatland.JsonUtil
+import Flatland.TreeJson
 open Lean Flatland.J
 namespace Flatland.Run.C09
+open Flatland.Tree Flatland.C08 Flatland.TreeJson
 
-/-- JSON case in, JSON observation out (stub until the model of C09 is written). -/
-def run (_j : Json) : Except String Json := .error "model runner for C09 not implemented yet"
+def isScalar (n : Node) : Bool := n.kind == .integer || n.kind == .string
+
+/-- the sequence at the root: members (label, value, u), slot names, value, length -/
+def view (s : St) (_r : Option StepObs) : Json :=
+  let ms := members s.root
+  let rows := ms.map (fun m =>
+    Json.arr #[lab s m.id, rawJson (valueOf m), if isScalar m then ofChars m.ni.u else Json.null])
+  let names : Json :=
+    if s.root.kind = .list then Json.arr (s.root.kids.map (fun sl => ofChars sl.key)).toArray
+    else Json.null
+  obj [("members", Json.arr rows.toArray), ("slots", names), ("value", rawJson (valueOf s.root)),
+       ("len", ofNat s.root.kids.length)]
+
+def run (j : Json) : Except String Json := do
+  runCase (← parseCase j) view
 
 end Flatland.Run.C09
